@@ -190,6 +190,17 @@ func zeroKey(k []*string, intAt map[int]bool) bool {
 	return true
 }
 
+// allNull: zero-ness of a key held in pointer fields (foreign keys): a
+// pointer to "" or 0 is not a zero value for gorm, only NULL is.
+func allNull(k []*string) bool {
+	for _, c := range k {
+		if c != nil {
+			return false
+		}
+	}
+	return true
+}
+
 func arg(c *string, isInt bool) interface{} {
 	if c == nil {
 		return nil
@@ -319,14 +330,44 @@ func newBip(c bipCfg) *Family {
 		// through its parent_id (Parent). The two relations have different
 		// relation keys (and zero-ness), hence two directions over one model.
 		has.Rels = []string{c.many}
+		// nodeDesc: the related node l (= g.L[i], g.R[i] is the same node) with
+		// what mode "n:<Relation>" loads below it
+		nodeDesc := func(g *Graph, i int, mode string) string {
+			s := itoa(g.L[i].Seq)
+			if !strings.HasPrefix(mode, "n:") {
+				return s
+			}
+			switch y := mode[2:]; y {
+			case c.many:
+				var kids []string
+				for _, r2 := range g.R {
+					// (a related node whose own id is the zero value has "no key":
+					// the preload below it is skipped)
+					if !zeroKey(g.L[i].Key, c.intAt) && eq(g.L[i].Key, r2.Key) && !r2.Del {
+						kids = append(kids, itoa(r2.Seq))
+					}
+				}
+				sort.Strings(kids)
+				if len(kids) > 0 {
+					s += "<" + strings.Join(kids, " ") + ">"
+				}
+			default: // Parent / Boss
+				for _, l2 := range g.L {
+					if eq(l2.Key, g.R[i].Key) && !l2.Del {
+						s += "^" + y[:1] + "(" + itoa(l2.Seq) + ")"
+					}
+				}
+			}
+			return s
+		}
 		belWant := func(g *Graph, seq int, rel, mode string) (ids []string) {
 			for _, r := range g.R {
 				if r.Seq != seq {
 					continue
 				}
-				for _, l := range g.L {
+				for i, l := range g.L {
 					if eq(l.Key, r.Key) && !l.Del && condOK(mode, l.Seq) {
-						ids = append(ids, itoa(l.Seq))
+						ids = append(ids, nodeDesc(g, i, mode))
 					}
 				}
 			}
@@ -335,10 +376,15 @@ func newBip(c bipCfg) *Family {
 		}
 		bel := &Dir{Name: c.lTyp.Name() + "~bel", Fam: f, Typ: c.lTyp, Table: c.lt, IntAt: c.intAt,
 			Rels: []string{c.bel}, One: map[string]bool{c.bel: true}, Target: map[string]reflect.Type{c.bel: c.lTyp}}
+		for _, o := range c.extraOne {
+			bel.Rels = append(bel.Rels, o)
+			bel.One[o] = true
+			bel.Target[o] = c.lTyp
+		}
 		bel.Lefts = func(g *Graph) []Left {
 			var out []Left
 			for _, r := range g.R {
-				out = append(out, Left{Seq: r.Seq, Del: r.Del, Zero: zeroKey(r.Key, c.intAt), Key: r.Key})
+				out = append(out, Left{Seq: r.Seq, Del: r.Del, Zero: allNull(r.Key), Key: r.Key})
 			}
 			return out
 		}
@@ -353,7 +399,7 @@ func newBip(c bipCfg) *Family {
 		bel.Lefts = func(g *Graph) []Left {
 			var out []Left
 			for _, r := range g.R {
-				out = append(out, Left{Seq: r.Seq, Del: r.Del, Zero: zeroKey(r.Key, c.intAt), Key: r.Key})
+				out = append(out, Left{Seq: r.Seq, Del: r.Del, Zero: allNull(r.Key), Key: r.Key})
 			}
 			return out
 		}
@@ -522,10 +568,11 @@ func newNest() *Family {
 	nk.Lefts = func(g *Graph) []Left {
 		var out []Left
 		for _, r := range g.R {
-			// zero for Toys if own id is zero, zero for GP if gp_id is zero: be
-			// conservative and skip a kid when either is zero
+			// skipped when the kid's own id is zero, or when it points at a
+			// grandparent whose id is the zero value "" (all-zero key convention
+			// one level down: Joins(GP) matches it, Preload(GP.Kids) skips it)
 			pk := r.PK
-			out = append(out, Left{Seq: r.Seq, Del: r.Del, Zero: zeroKey(r.Key, nil) || zeroKey([]*string{&pk}, nil), Key: r.Key})
+			out = append(out, Left{Seq: r.Seq, Del: r.Del, Zero: zeroKey([]*string{&pk}, nil) || (!allNull(r.Key) && zeroKey(r.Key, nil)), Key: r.Key})
 		}
 		return out
 	}
